@@ -155,7 +155,26 @@ def gen_crawl(r):
         site['h2'].update(h2)
         items.append({'ns': ns, 'kind': kind})
     args = ['http://h1:{PORT}/%s/s' % it['ns'] for it in items]
-    args += ['--max-redirect', str(maxr), '--tries', str(tries), '--concurrent', '1', '--no-robots']
+    args += ['--max-redirect', str(maxr), '--tries', str(tries), '--concurrent', '1']
+    # robots.txt handling on in a third of the crawls: every request after the first of a visit (redirect target, repeat with
+    # credentials) is robots-checked for ITS origin; rules disallow some of the scripted paths, h2 may answer 503 (fetch fails)
+    robots = None
+    if r.random() < 0.35:
+        robots = {}
+        args += ['-r', '-l', '1']           # wpull switches robots.txt handling off unless the crawl is recursive
+        for host in ('h1', 'h2'):
+            paths = sorted(site[host])
+            kind = r.choice(['404', 'rules', 'rules'] + (['503'] if host == 'h2' else []))
+            deny = sorted(set(r.choice(paths) for _ in range(r.randrange(1, 4)))) if (kind == 'rules' and paths) else []
+            robots[host] = {'kind': kind, 'deny': deny}
+            if kind == '404':
+                site[host]['/robots.txt'] = {'status': 404, 'body': ''}
+            elif kind == '503':
+                site[host]['/robots.txt'] = {'status': 503, 'body': 'busy'}
+            else:
+                site[host]['/robots.txt'] = {'body': 'User-agent: *\n' + ''.join('Disallow: %s\n' % d for d in deny), 'ctype': 'text/plain'}
+    else:
+        args.append('--no-robots')
     if pw:
         args += ['--http-user', 'user', '--http-password', 'secret']
     if not strong:
@@ -163,7 +182,7 @@ def gen_crawl(r):
     # a crawl that sends more than every bound allows is cut off by the server (runaway loops must not stall the check)
     cap = n_items * (tries + 1) * 2 * (maxr + 2) + 10
     return {'args': args, 'site': site, 'items': items, 'max_redirect': maxr, 'tries': tries, 'password': pw, 'strong': strong,
-            'pre_hooks': ['harness.fakes.filters_site.install'], 'kill_at_request': cap}
+            'robots': robots, 'pre_hooks': ['harness.fakes.filters_site.install'], 'kill_at_request': cap}
 
 
 # ----------------------------------------------------------------------------------------------
@@ -174,6 +193,8 @@ def _all_pages(spec, port):
     out = []
     for host, pages in spec['site'].items():
         for path, page in pages.items():
+            if path == '/robots.txt':
+                continue
             seq = page['seq'] if 'seq' in page else [page]
             out.append(('http://%s:%d%s' % (host, port, path), seq, bool(page.get('cycle'))))
     return out
@@ -236,21 +257,25 @@ def coq_crawl(spec, res, typed, jt, parses):
             if parses[u]]
     lib = 'tab_lib %s [] [] []' % c02.clist(ptab, lambda kv: '(%s, %s)' % (c02.cstr(kv[0]), c02.cinfo(kv[1])))
     hosts = sorted({parses[a.replace('{PORT}', str(port))]['hostname'] for a in spec['args'] if a.startswith('http://')})
-    cfg = ('{| c_max_redirects := (%d)%%Z; c_strong_redirects := %s; c_password := %s; c_robots := false; c_content_on_error := false |}' % (
-        typed['max_redirect'], c02.cbool(typed['strong_redirects']), c02.cbool(spec['password'])))
+    rb = spec.get('robots')
+    cfg = ('{| c_max_redirects := (%d)%%Z; c_strong_redirects := %s; c_password := %s; c_robots := %s; c_content_on_error := false |}' % (
+        typed['max_redirect'], c02.cbool(typed['strong_redirects']), c02.cbool(spec['password']), c02.cbool(bool(rb))))
+    fails = ['http://%s:%d/' % (h, port) for h, x in sorted((rb or {}).items()) if x['kind'] == '503']
+    denies = ['http://%s:%d%s' % (h, port, d) for h, x in sorted((rb or {}).items()) for d in x['deny']]
+    robots_fn = '(tab_robots %s %s)' % (c02.clist(fails, c02.cstr), c02.clist(denies, c02.cstr))
     tag = 'k%d' % next(_counter)
     defs = ('Definition L_%s := %s.\nDefinition a_%s := %s.\nDefinition hs_%s := %s.\nDefinition cfg_%s := %s.\n'
-            'Definition script_%s := %s.\nDefinition J_%s := tab_join %s.\nDefinition OK_%s := tab_ok %s.\n' % (
+            'Definition script_%s := %s.\nDefinition J_%s := tab_join %s.\nDefinition OK_%s := tab_ok %s.\nDefinition R_%s := %s.\n' % (
                 tag, lib, tag, c02.cargs(typed), tag, c02.clist(hosts, c02.cstr), tag, cfg, tag, script, tag,
-                c02.clist(jrows, lambda x: x), tag, c02.clist(sorted(oks), c02.cstr)))
+                c02.clist(jrows, lambda x: x), tag, c02.clist(sorted(oks), c02.cstr), tag, robots_fn))
     checks, counts = [], []
     rows = {row['url']: row for row in res['rows']}
     for it in spec['items']:
         start = 'http://h1:%d/%s/s' % (port, it['ns'])
         seq = [_req_url(q) for q in res['requests'] if q['path'].startswith('/%s/' % it['ns'])]
         row = rows.get(start, {'status': 'missing', 'try_count': -1})
-        run = ('run_visits J_%s OK_%s cfg_%s (consult_model L_%s a_%s hs_%s) script_%s %s %d [] {| it_status := ITodo; it_tries := 0 |}' % (
-            tag, tag, tag, tag, tag, tag, tag, c02.cstr(start), spec['tries'] + 3))
+        run = ('run_visits J_%s OK_%s cfg_%s (consult_model L_%s a_%s hs_%s) R_%s script_%s %s %d [] {| it_status := ITodo; it_tries := 0 |}' % (
+            tag, tag, tag, tag, tag, tag, tag, tag, c02.cstr(start), spec['tries'] + 3))
         checks.append('(summary_eqb (item_summary (%s)) %s %d%%nat (%d)%%Z)' % (
             run, c02.clist(seq, c02.cstr), STATUS_CODE.get(row['status'], 8), row['try_count'] if row['try_count'] is not None else -1))
         counts.append('((map count_requests (fst (%s)) ++ [999%%nat])%%list)' % run)
@@ -425,7 +450,7 @@ def run_specs(ctx, specs, with_model=True):
 
 
 def _plain_spec(s):
-    return {k: s[k] for k in ('args', 'site', 'items', 'max_redirect', 'tries', 'password', 'strong', 'pre_hooks', 'kill_at_request') if k in s}
+    return {k: s[k] for k in ('args', 'site', 'items', 'max_redirect', 'tries', 'password', 'strong', 'robots', 'pre_hooks', 'kill_at_request') if k in s}
 
 
 def pregen(ctx):
@@ -444,8 +469,19 @@ def correspondence(ctx):
     results, disagreements, violations, counts = run_specs(ctx, specs)
     kinds, nontriv, total_items, total_requests = {}, set(), 0, 0
     maxima = {'requests_per_visit': 0}
+    robots_stats = {'crawls_with_robots': 0, 'robots_txt_requests': 0, 'robots_503_origins': 0, 'disallowed_paths': 0,
+                    'disallowed_paths_never_requested': 0}
     for gi, (s, res) in enumerate(zip(specs, results)):
         total_requests += len(res.get('requests', []))
+        if s.get('robots'):
+            robots_stats['crawls_with_robots'] += 1
+            robots_stats['robots_txt_requests'] += len([q for q in res.get('requests', []) if q['path'] == '/robots.txt'])
+            got = set((q['host'], q['path']) for q in res.get('requests', []))
+            for h, x in s['robots'].items():
+                robots_stats['robots_503_origins'] += x['kind'] == '503'
+                for d in x['deny']:
+                    robots_stats['disallowed_paths'] += 1
+                    robots_stats['disallowed_paths_never_requested'] += (h, d) not in got
         for it in s['items']:
             total_items += 1
             kinds[it['kind']] = kinds.get(it['kind'], 0) + 1
@@ -461,12 +497,14 @@ def correspondence(ctx):
         'distinct_nontrivial': len(nontriv),
         'rule': 'end-to-end crawls of 2-4 start URLs each against scripted adversarial pages (redirect loops / chains around the limit over '
                 '301/302/303/307/308, missing / empty / unparsable Location, perpetual 401 with and without credentials, 401/redirect alternation, '
-                '5xx, dropped connections, cross-host hops with and without strong redirects) for max_redirect 0..4, tries 1..3; compared per start URL: '
+                '5xx, dropped connections, cross-host hops with and without strong redirects) for max_redirect 0..4, tries 1..3; in a third of the crawls '
+                'robots.txt handling is on (404 / rules disallowing scripted paths / 503 per origin) so that the robots check of redirect targets is '
+                'exercised; compared per start URL: '
                 'the ordered URLs requested, final status, try_count vs the model run in Coq; non-trivial = distinct (script kind, max_redirect, tries, '
                 'password, strong redirects, number of requests) with more than one request',
         'samples': [{'args': s['args'], 'items': s['items']} for s in specs[:3]],
         'input_distribution': {'crawls': n, 'start_urls': total_items, 'requests': total_requests, 'kinds': kinds,
-                               'max_requests_in_one_visit': maxima['requests_per_visit']},
+                               'max_requests_in_one_visit': maxima['requests_per_visit'], 'robots': robots_stats},
         'disagreements': disagreements,
         'impl_violations': violations,
     }
